@@ -226,7 +226,8 @@ public:
       ip->rec = false;
       int nlog = 0;
       for (size_t q = 0; q < ip->logs.size(); q++)
-        if (ip->logs[q].find("has not converged") != std::string::npos && ip->logs[q].find("ERROR") == std::string::npos) nlog++;
+        if (ip->logs[q].find("has not converged") != std::string::npos && ip->logs[q].find("ERROR") == std::string::npos &&
+            ip->logs[q].find("WARNING") == std::string::npos) nlog++;
       int rm = e->remove_unstable_phases ? 1 : 0;
       o << "PRD " << rd << " " << (rr == CONVERGED ? 1 : 0) << " " << (cr == ERROR ? 1 : 0) << " " << rm << " " << ip->n_err << " "
         << ip->n_warn << " " << nlog << "\n";
